@@ -57,17 +57,17 @@ func main() {
 	switch o.Mode {
 	case "gen":
 		r := hx.Rand(o.Seed, 26)
-		g := &gen{r: r}
+		g := &hxc26.Gen{R: r}
 		var cases []caseOut
 		var srcs []string
 		for i := 0; i < o.N; i++ {
-			g.odd = i%10 == 9
-			p := g.program()
-			c := caseOut{Src: listSrc(p, "; "), Coq: listCoq(p), Odd: g.odd}
+			g.Odd = i%10 == 9
+			p := g.Program()
+			c := caseOut{Src: hxc26.ListSrc(p, "; "), Coq: hxc26.ListCoq(p), Odd: g.Odd}
 			cases = append(cases, c)
 			srcs = append(srcs, c.Src)
 		}
-		resps := runAll(srcs, coreVars())
+		resps := runAll(srcs, hxc26.CoreVars())
 		for i := range cases {
 			cases[i].Go = resps[i]
 			hx.Emit(cases[i])
@@ -118,7 +118,7 @@ func main() {
 			cases = append(cases, c)
 			srcs = append(srcs, c.Src)
 		}
-		resps := runAll(srcs, coreVars())
+		resps := runAll(srcs, hxc26.CoreVars())
 		for i := range cases {
 			cases[i].Go = resps[i]
 			hx.Emit(cases[i])
